@@ -7,11 +7,26 @@ use std::cell::Cell;
 pub struct Counting;
 pub static ALLOCATED: AtomicUsize = AtomicUsize::new(0);
 
+/// live bytes; an operation that drives them past HARD_CAP is refused (null => `handle_alloc_error` aborts the
+/// process, which the orchestrator attributes to the operation): a decoder that can be made to allocate without bound
+/// must not take the machine down with it.
+pub static LIVE: AtomicUsize = AtomicUsize::new(0);
+pub const HARD_CAP: usize = 3 << 30;
+
 unsafe impl GlobalAlloc for Counting {
-    unsafe fn alloc(&self, l: Layout) -> *mut u8 { ALLOCATED.fetch_add(l.size(), Ordering::Relaxed); System.alloc(l) }
-    unsafe fn dealloc(&self, p: *mut u8, l: Layout) { System.dealloc(p, l) }
+    unsafe fn alloc(&self, l: Layout) -> *mut u8 {
+        ALLOCATED.fetch_add(l.size(), Ordering::Relaxed);
+        if LIVE.fetch_add(l.size(), Ordering::Relaxed) + l.size() > HARD_CAP { LIVE.fetch_sub(l.size(), Ordering::Relaxed); return std::ptr::null_mut() }
+        System.alloc(l)
+    }
+    unsafe fn dealloc(&self, p: *mut u8, l: Layout) { LIVE.fetch_sub(l.size(), Ordering::Relaxed); System.dealloc(p, l) }
     unsafe fn realloc(&self, p: *mut u8, l: Layout, n: usize) -> *mut u8 {
-        if n > l.size() { ALLOCATED.fetch_add(n - l.size(), Ordering::Relaxed); }
+        if n > l.size() {
+            ALLOCATED.fetch_add(n - l.size(), Ordering::Relaxed);
+            if LIVE.fetch_add(n - l.size(), Ordering::Relaxed) + (n - l.size()) > HARD_CAP { LIVE.fetch_sub(n - l.size(), Ordering::Relaxed); return std::ptr::null_mut() }
+        } else {
+            LIVE.fetch_sub(l.size() - n, Ordering::Relaxed);
+        }
         System.realloc(p, l, n)
     }
 }
